@@ -13,6 +13,7 @@ partial def dump : Json → String
   | .bool true => "t"
   | .bool false => "f"
   | .number n k => if k = 0 then s!"#{n}" else s!"#{n}/{k}"
+  | .numberX _ => "#?"
   | .string s => "s" ++ Drivers.toHex s
   | .array vs => "[" ++ ",".intercalate (vs.map dump) ++ "]"
   | .object ms => "{" ++ ",".intercalate (ms.map fun (k, v) => Drivers.toHex k ++ ":" ++ dump v) ++ "}"
